@@ -173,7 +173,9 @@ func (g *G) varsOf(t *Ty, writable bool) []*variable {
 
 var numPool = []string{"0", "1", "2", "3", "7", "10", "0.5", "99.99", "1000000", "(-1)", "(-2.5)"}
 var numSpecial = []string{"(0/0)", "(1/0)", "(-1/0)", "1000000000000000000000", "0.0000001", "123456789012345680000", "(-0)"}
-var strPool = []string{`""`, `"a"`, `"abc"`, `"hello world"`, `"é"`, `"日本"`, `"𝄞x"`, `"q\"uote"`, `"back\\slash"`, `"tab\tnl\n"`, `"true"`, `"12"`, `"%v %s"`}
+var strPool = []string{`""`, `"a"`, `"abc"`, `"hello world"`, `"é"`, `"日本"`, `"𝄞x"`, `"q\"uote"`, `"back\\slash"`, `"tab\tnl\n"`, `"true"`, `"12"`, `"%v %s"`,
+	// bytes that are not valid UTF-8 (the lexer's \x escape), alone and next to multi-byte characters
+	`"h\xc3\xa9llo\xff"`, `"\xff"`, `"a\x80b"`, `"\xc3"`, `"é\xffabc"`, `"日\xe6\x97"`}
 var keyPool = []string{"a", "b", "c", "name", "x", "y", "k1", "k2"}
 
 func (g *G) randType(depth int) *Ty {
